@@ -377,6 +377,34 @@ def _sdf_layout(x):
     )
 
 
+@layout("pdb")
+def _pdb_layout(x):
+    atom = next(f for fn, f in x.writes if fn == "dump_one" and f and f[0] == ("lit", "ATOM  "))
+    con = next(f for fn, f in x.writes if fn == "dump_one" and f and f[0] == ("lit", "CONECT"))
+    ints = [f for f in atom if f[0] == "int"]
+    strs = [f for f in atom if f[0] == "str"]
+    fixs = [f for f in atom if f[0] == "fix"]
+    gap4 = [f for f in atom if f[0] == "lit" and f[1].strip() == "" and len(f[1]) > 1][0][1]
+    sl = {}
+    for fn, t, a, b, i in x.slices:
+        sl.setdefault((fn, t), []).append((a, b))
+    pa = "_parse_pdb_atom_line"
+    co = sl[(pa, "atcoord")]
+    src = (engine.REPO / "iodata" / "formats" / "pdb.py").read_text()
+    loaded = re.search(r'title = "(PDB file[^"]*)"', src).group(1)
+    dtitle = re.search(r'data\.title or "([^"]*)"', src).group(1)
+    pr = lambda p: f"({p[0]}, {p[1]})"  # noqa: E731
+    others = sl[("_parse_pdb_conect_line", "serial_str")]
+    return (
+        f"def pdbL : Pdb.Layout :=\n  ⟨{ints[0][2]}, {strs[0][2]}, {strs[1][2]}, {ints[1][2]}, {len(gap4)}, {fixs[0][3]}, {fixs[0][4]}, "
+        f"{fixs[3][3]}, {fixs[3][4]}, {strs[3][2]}, {[f for f in con if f[0] == 'int'][0][2]},\n   "
+        f"{pr(sl[(pa, 'symbol')][0])}, {pr(sl[(pa, 'atname')][0])}, {pr(sl[(pa, 'resname')][0])}, {sl[(pa, 'chainid')][0][0]}, "
+        f"{pr(sl[(pa, 'resnum')][0])}, {pr(co[0])}, {pr(co[1])}, {pr(co[2])}, {pr(sl[(pa, 'occupancy')][0])}, {pr(sl[(pa, 'bfactor')][0])}, "
+        f"{sl[('load_one', '<expr>')][0][0]}, {pr(sl[('_parse_pdb_conect_line', 'iatom0')][0])}, [{', '.join(pr(p) for p in others)}],\n   "
+        f"{chars(dtitle)}, {chars(loaded)}⟩\n"
+    )
+
+
 def build_gen() -> str:
     out = [
         "import Iodata.Model.Fmt.Core",
